@@ -32,7 +32,9 @@ CasesFor(k) ==
                         x0 \in {0, -5, 7}, rx \in {2, -2, 1, 5}, nx \in {1, 2, 5}, ry \in {-2, 3}, ny \in {1, 3}}
     [] k = "bin1d" -> {[op |-> "bin1d", sz |-> sz, o |-> o, dir |-> d, idx |-> i] : sz \in {4, 6, 1}, o \in {0, -6, 2}, d \in {1, -1}, i \in {-2, 0, 3}}
     [] k = "poly" -> {[op |-> "poly", kind |-> kd, nn |-> nn, T |-> T] : kd \in {"affine", "bilinear", "biquad"}, nn \in {3, 4, 6, 8, 9, 12},
-                        T \in {<<1, 0, 0, 0, 1, 0>>, <<1, 0, 2, 0, 1, 1>>, <<2, 0, 0, 0, 2, 0>>, <<0, -1, 3, 1, 0, 0>>}}
+                        \* input transforms: every invertible integer matrix with entries in -1..2 (scales, mirrors, rotations, shears in the x row only,
+                        \* in the y row only, in both), two translations
+                        T \in {<<a, b, t[1], d, e, t[2]>> : a \in -1..2, b \in -1..2, d \in -1..2, e \in -1..2, t \in {<<0, 0>>, <<2, 1>>}} \ {x \in [1..6 -> -1..2] : x[1] * x[5] - x[2] * x[4] = 0}}
 Kinds == {"split", "nearint", "snapscale", "align", "snapgrid", "snapaffine", "rws", "affpts", "axis", "bin1d", "poly"}
 PolyValid(c) == (c.kind = "affine" /\ c.nn \in {3, 6}) \/ (c.kind = "bilinear" /\ c.nn \in {4, 8}) \/ (c.kind = "biquad" /\ c.nn \in {9, 12})
 
